@@ -27,7 +27,7 @@ TRUSTED_BASE = [
     'no sorry/admit/native_decide/bv_decide/implemented_by/own axioms (grep + audit on every run)',
     'hand-written Impl model tied to the code by the correspondence run of this check '
     '(real code vs `lake env lean --run Driver/Main.lean` on the same inputs) '
-    'and, where listed, by the translators (py2lean, maskglue, compoundglue, rotateglue, c14_extract, c13_effects, instantiate) + bridge lemmas',
+    'and, where listed, by the translators (py2lean, maskglue, compoundglue, rotateglue, convglue, inlineglue, c14_extract, c13_effects, instantiate) + bridge lemmas',
     'Spec layer = my reading of the property text',
 ]
 
